@@ -1886,7 +1886,7 @@ def body(run: Run) -> int:
     run.assumptions += ['operands are abstract: which primary expressions may occur as path steps or call targets is outside the level table',
                         'lexical constraint xgc:occurrence-indicators (type followed by + * ?) is outside the level table',
                         'observation is the syntactic phase tdop.Parser.parse; static evaluation in XPath1Parser.parse is not part of C04']
-    run.prove(['EPV.Props.C04', 'EPV.Props.C04Tables'], ['EPV.Lemmas.PrattTables', 'EPV.Lemmas.PrattComplete', 'EPV.Model.PrattLexer', 'EPV.Lemmas.PrattSource', 'EPV.Lemmas.PrattSourceAll'])
+    run.prove(['EPV.Props.C04', 'EPV.Props.C04Tables'], ['EPV.Lemmas.PrattTables', 'EPV.Lemmas.PrattComplete', 'EPV.Model.PrattLexer', 'EPV.Lemmas.PrattSource', 'EPV.Lemmas.PrattSourceAll', 'EPV.Lemmas.PrattEbnfComplete'])
     try:
         correspond(run)
     except DriverError as e:
